@@ -152,6 +152,14 @@ def answer : List String → String
         if xs.length ≠ ys.length then "bad-op" else withGrid u b l o g s (fun gr =>
           showOpt showRats ((cartChangePitchSeq (List.zip xs ys) gr).bind (fun g2 => getCoordinates g2 ix)))
       | _, _, _ => "bad-op"
+  | ["trz", tau, cs, sn, nat, u, b, l, o, g, s, idx] =>
+      match parseRat? tau, parseRat? cs, parseRat? sn, parseBool? nat, parseIntList? idx with
+      | some tau, some cs, some sn, some nat, some ix => withGrid u b l o g s (fun gr =>
+          showOpt showRats (trzGetCoordinates tau cs sn nat gr ix))
+      | _, _, _, _, _ => "bad-op"
+  | ["trzringpos", i, j] => match parseInt? i, parseInt? j with
+      | some i, some j => showPair (trzRingPos i j) ++ showPair (trzFromRingPos (trzRingPos i j).1 (trzRingPos i j).2)
+      | _, _ => "bad-op"
   | "globalbase" :: rest => match parseLocs? rest with
       | some locs => if locs.isEmpty then "bad-op" else showOpt showRats (globalBase locs)
       | none => "bad-op"
